@@ -126,13 +126,15 @@ def check_move(eng, base, info, dest, marker, oc):
         # recompile both pages
         ra, rb = compile_notes(impl_src), compile_notes(impl_dst)
         r0a, r0b = compile_notes(before[src]), compile_notes(dst_before)
-        if all(r["status"] == "ok" and not r["nerrors"] for r in (ra, rb, r0a, r0b)):
+        fine = lambda r: r["status"] == "ok" and not r["nerrors"]
+        if all(fine(r) for r in (ra, rb, r0a, r0b)):
             z_before = sorted(n["zid"] or "" for n in r0a["notes"] + r0b["notes"])
             z_after = sorted(n["zid"] or "" for n in ra["notes"] + rb["notes"])
-            if z_before != z_after and not probs:
+            if z_before != z_after and not probs:      # (a known finding loses / duplicates notes by itself)
                 probs.append(("the set of notes (ZIDs) of the two pages changed: %s -> %s" % (z_before, z_after), None))
+        if fine(rb):
             moved = [n for n in rb["notes"] if n["zid"] == info["zid"]]
-            if len(moved) == 1 and not probs:
+            if len(moved) == 1 and not any(t is None for _, t in probs):
                 m = moved[0]
                 want_kind = marker or (info["todo"][1] if info["todo"] else "-")
                 got_kind = m["todo"][1] if m["todo"] else "-"
@@ -145,6 +147,8 @@ def check_move(eng, base, info, dest, marker, oc):
                     if m["props"].get(kk) != vv:
                         probs.append(("moved note lost property %s::%s (now %r)" % (kk, vv, m["props"].get(kk)), None))
                         break
+        # an unclassified problem is reported before a known one
+        probs.sort(key=lambda wt: wt[1] is not None)
         for what, trig in probs[:1]:
             oc.spec_fail.append((case, {"what": what, "src_after": impl_src, "dst_after": impl_dst}, "C10", trig))
             if trig:
